@@ -141,12 +141,19 @@ def c08_4(rep, ix):
         rep.check(direct, R, ix.site(f, st), "%s slot: the stored value is RegRefTransform(<the element>) constructed at this point (not a cached or shared object)" % slot,
                   "stores `%s`" % u(v), key=slot + "|direct")
         # guard semantics
+        alias_l = single_assignments(fn)
         for kname, model, S, P, want in wrap_models():
-            def atom(node, model=model, S=S, P=P):
+            def atom(node, model=model, S=S, P=P, depth=[0]):
                 if isinstance(node, ast.Name) and node.id == var:
                     return model
                 if isinstance(node, ast.Name) and node.id == PARAMS:
                     return tuple(P)
+                if isinstance(node, ast.Name) and node.id in alias_l and node.id != var and depth[0] < 4:
+                    depth[0] += 1            # a local bound once in the handler (e.g. `params = set(_PARAMS)`)
+                    try:
+                        return AEval(atom).ev(alias_l[node.id])
+                    finally:
+                        depth[0] -= 1
                 return AEval.NO
             r = reach_in_loop(l, st, atom)
             rep.check(r == want, R, ix.site(f, st), "%s slot: a %s value with symbols {%s} and template parameters {%s} is %s" % (
